@@ -25,8 +25,8 @@ Theorem C11_isolation :
   forall (payload err0 : Type) (pid : payload -> nat) (body : payload -> option err0)
          (sh : sharing),
     (forall v, sh v = false) ->
-    forall (evs : list payload) (sched : list nat) s',
-      run (step payload err0 pid body sh) (init payload err0 evs) sched = Some s' ->
+    forall (outer : option nat) (evs : list payload) (sched : list nat) s',
+      run (step payload err0 pid body sh) (init_with payload err0 outer evs) sched = Some s' ->
       List.length (g_threads s') = List.length evs /\
       forall i ev, nth_error evs i = Some ev ->
         exists th, nth_error (g_threads s') i = Some th /\
@@ -41,8 +41,8 @@ Print Assumptions C11_isolation.
    returned, the observations are Isolated ... *)
 Theorem C11_isolation_this_tree :
   forall (payload err0 : Type) (pid : payload -> nat) (body : payload -> option err0)
-         (evs : list payload) (sched : list nat) s',
-    run (step payload err0 pid body (sharing_of captured_writes)) (init payload err0 evs) sched = Some s' ->
+         (outer : option nat) (evs : list payload) (sched : list nat) s',
+    run (step payload err0 pid body (sharing_of captured_writes)) (init_with payload err0 outer evs) sched = Some s' ->
     all_done s' = true ->
     Isolated payload (obs err0) (produced payload err0 pid body) evs (map (obs_of payload err0) (g_threads s')).
 Proof. rewrite C11_no_captured_writes. intros payload err0 pid body. exact (isolation_spec payload err0 pid body _ sharing_of_nil). Qed.
@@ -54,8 +54,8 @@ Theorem C11_errors_exact :
   forall (payload err0 : Type) (pid : payload -> nat) (body : payload -> option err0)
          (sh : sharing),
     (forall v, sh v = false) ->
-    forall (evs : list payload) (sched : list nat) s',
-      run (step payload err0 pid body sh) (init payload err0 evs) sched = Some s' ->
+    forall (outer : option nat) (evs : list payload) (sched : list nat) s',
+      run (step payload err0 pid body sh) (init_with payload err0 outer evs) sched = Some s' ->
       all_done s' = true ->
       Isolated payload (option (rerr err0)) (expected payload err0 body) evs (results s').
 Proof. exact errors_exact. Qed.
@@ -67,13 +67,24 @@ Theorem C11_scope_lock_discipline :
   forall (payload err0 : Type) (pid : payload -> nat) (body : payload -> option err0)
          (sh : sharing),
     (forall v, sh v = false) ->
-    forall (evs : list payload) (sched : list nat) s',
-      run (step payload err0 pid body sh) (init payload err0 evs) sched = Some s' ->
+    forall (outer : option nat) (evs : list payload) (sched : list nat) s',
+      run (step payload err0 pid body sh) (init_with payload err0 outer evs) sched = Some s' ->
       forall i th, nth_error (g_threads s') i = Some th -> t_pc th = PReparent ->
         exists sc, c_scope (t_loc th) = Some sc /\ sc_owner sc = i /\
                    sc_lock sc = S i /\ NoDup [sc_lock sc; tree_lock].
 Proof. exact reparent_locks_distinct. Qed.
 Print Assumptions C11_scope_lock_discipline.
+
+(* A variable called `event` of the scope in which the sink is declared (the action binds its
+   own `event` before its scope gets a parent) is never read or written by an invocation:
+   whatever the sharing, the start state and the schedule, it keeps its value — and by
+   C11_isolation every invocation still sees its own event. *)
+Theorem C11_outer_event_untouched :
+  forall (payload err0 : Type) (pid : payload -> nat) (body : payload -> option err0)
+         (sh : sharing) (sched : list nat) (s s' : state payload err0),
+    run (step payload err0 pid body sh) s sched = Some s' -> g_outer s' = g_outer s.
+Proof. exact outer_untouched. Qed.
+Print Assumptions C11_outer_event_untouched.
 
 (* ---- the code before the repair: `err` captured from the declaring Eval (F17) ---------- *)
 
